@@ -6,3 +6,5 @@ open HmcVerif.C15
 #print axioms simple_covariance_form
 #print axioms gradient_is_derivative
 #print axioms forward_eq
+#print axioms roundtrips_invisible
+#print axioms bounds_survive_roundtrip
